@@ -6,6 +6,11 @@ import os, sys
 sys.path.insert(0, os.path.dirname(os.path.abspath(__file__)))
 from states import adt, UNIT as _ST
 import dispatch_ext as _de
+import re as _re
+import hellos as _hl
+# the RFC encoder spec functions of unit hellos (enc_u16, enc_sh), taken from its text so that the two units speak about the same
+# function by construction: hellos proves parse(enc_sh(v)) == v (lemma_server_hello_roundtrip); here serialize(v) == enc_sh(v)
+_ENC = "\n".join(_re.findall(r"(?ms)^pub open spec fn (?:enc_u16|enc_sh)\(.*?^\}$|^pub open spec fn enc_u16\(.*?$", _hl.ROUNDTRIP))
 
 F_SER = "src/tls_serialize.rs"
 F_HS = "src/tls_handshake.rs"
@@ -123,6 +128,30 @@ proof fn lemma_vec_writer_appends<F: Fn(WriteContext<Vec<u8>>) -> GenResult<Vec<
 }
 '''
 
+LINK = _ENC + r'''
+pub proof fn lemma_u16_bytes(i: u16) ensures u16_bytes(i) =~= enc_u16(i as int)
+{
+    assert((i >> 8) == i / 256 && (i & 0xff) == i % 256) by (bit_vector);
+}
+// THE LINK (C09 round trip): what gen_tls_serverhello emits is the handshake framing (type 2, u24 length) of exactly the RFC 5246
+// 7.4.1.3 encoding enc_sh that unit hellos proves the parser to invert - an absent extension block is written as an empty one.
+pub open spec fn opt_view(o: Option<&[u8]>) -> Option<Seq<u8>> { match o { Some(x) => Some(x@), None => None } }
+proof fn lemma_server_hello_is_rfc_encoding(m: TlsServerHelloContents)
+    requires m.session_id is Some ==> m.session_id->Some_0@.len() <= 255, m.ext is Some ==> m.ext->Some_0@.len() <= 65535,
+    ensures server_hello_out(m) == hs_out(2, bytes(enc_sh(m.version.0, m.random@, opt_view(m.session_id), m.cipher.0, m.compression.0,
+                Some(match m.ext { Some(x) => x@, None => Seq::<u8>::empty() })))),
+{
+    lemma_u16_bytes(m.version.0); lemma_u16_bytes(m.cipher.0); lemma_u16_bytes(0);
+    let sidb = match m.session_id { None => seq![0u8], Some(o) => seq![o@.len() as u8] + o@ };
+    let extv = match m.ext { Some(x) => x@, None => Seq::<u8>::empty() };
+    let extb = match m.ext { None => u16_bytes(0), Some(o) => u16_bytes(o@.len() as u16) + o@ };
+    match m.ext { Some(o) => { lemma_u16_bytes(o@.len() as u16); }, None => {} }
+    let body = u16_bytes(m.version.0) + (m.random@ + (sidb + (u16_bytes(m.cipher.0) + (seq![m.compression.0] + extb))));
+    let e = enc_sh(m.version.0, m.random@, opt_view(m.session_id), m.cipher.0, m.compression.0, Some(extv));
+    assert(body =~= e);
+}
+'''
+
 R = ["R20", "R21"]
 def clo(post):
     """R9: the returned closure's signature made explicit, with its contract"""
@@ -202,5 +231,5 @@ UNIT = {
          "subst": [clo_expr("gen_post(out, r2, extension_out(*m))"), (r"\(ref (\w+)\)", r"(\1)")],
          "contract": "    ensures emits(r, extension_out(*m)),"},
     ],
-    "epilogue": LEMMAS,
+    "epilogue": LEMMAS + LINK,
 }
